@@ -1,7 +1,8 @@
 import RichModel.Model.Term
+import RichModel.Model.Cells
 /-
 Model of rich/live.py, rich/live_render.py, the live part of rich/progress.py, and rich/status.py
-(Rich 9.10.0), as a state machine that emits terminal operations.  Import-free (core Lean only).
+(Rich 9.10.0), as a state machine that emits terminal operations.  Imports only `Model/Term` and `Model/Cells` (core Lean).
 
 What is modelled, statement by statement
 * `LiveRender.position_cursor` / `restore_cursor` (live_render.py:31-51) from the *recorded* shape;
@@ -20,15 +21,22 @@ What is modelled, statement by statement
 
 Parameters (not modelled further): what the user renderable yields is given as a list of plain lines
 (`Frame`); user output of `print` / `log` is given as the list of lines a console *without* a live
-display writes for the same call.  Characters are assumed one cell wide.  The console is a terminal
-(`is_terminal`, not dumb, not Jupyter, not legacy Windows); `auto_refresh=False`.
+display writes for the same call.  Widths are cell widths (`Cfg.cw`; crops and paddings count cells, a wide character occupies two cells of
+the screen).  Consoles: terminals, dumb terminals and files
+(`Cfg.terminal`, `Cfg.dumb`; the screen theorems are about `Cfg.plain`); not Jupyter, not legacy Windows;
+`auto_refresh=False`.  The console width may change (`Op.resize`); `Progress(disable=True)` is `Cfg.disable`;
+the spinner of a Status is the opaque function `Cfg.spin` of the render count.
 
 CODE VARIANT FLAGS (in `Cfg`): `bareBypass = true` is rich 9.10.0 as found, where `console.print()` /
 `console.log()` without arguments call `Console.line()` and bypass the render hooks (finding F19; repaired by fix b373465);
 `startGuard = false` is the as-found `Progress.start` (repaired by fix 4e4f7e5), which pushes the hook, redirects io, hides the cursor
 and *then* calls `refresh()` unprotected; `resetShape = false` is the as-found `stop` (repaired by fix b4577f9), which keeps the
 recorded shape of the last frame (a later `start` then erases rows that belong to finished output) and
-leaves `vertical_overflow` at `"visible"`.  /repo contains the three repairs: `bareBypass = false`, `startGuard = true`,
+leaves `vertical_overflow` at `"visible"`; `blankFix = false` is today's `restore_cursor`, which goes up
+`height` rows, so a transient display whose last frame is empty leaves one blank line behind;
+`flushFix = false` is today's `stop`, which does not flush the FileProxy objects before its last refresh:
+text pending from `print(..., end="")` is only written when the proxy object dies in
+`_disable_redirect_io` — after the last frame, through the still installed hook.  /repo contains the three repairs: `bareBypass = false`, `startGuard = true`,
 `resetShape = true` (the values the harness passes).
 -/
 namespace RichModel.Live
@@ -60,13 +68,35 @@ structure Cfg where
   bareBypass : Bool := true
   startGuard : Bool := false
   resetShape : Bool := false
-deriving Repr, DecidableEq
+  blankFix : Bool := false
+  flushFix : Bool := false
+  terminal : Bool := true                   -- `console.is_terminal`
+  dumb : Bool := false                      -- `console.is_dumb_terminal` (implies `terminal`)
+  disable : Bool := false                   -- `Progress(disable=True)`
+  spin : Nat → Char := fun _ => '⠋'         -- Status: what the spinner shows at the n-th render of the display (opaque)
+  cw : Char → Nat := fun _ => 1             -- `get_character_cell_size` (the driver passes the table of rich/_cell_widths.py)
+
+/-- A terminal that understands control codes: `show_cursor` / `Console.control` write something. -/
+def Cfg.ansi (cfg : Cfg) : Bool := cfg.terminal && !cfg.dumb
+
+/-- The configurations the screen theorems are about. -/
+def Cfg.plain (cfg : Cfg) : Bool := cfg.terminal && !cfg.dumb && !cfg.disable
 
 structure Task where
   id : Nat
   desc : Line
   completed : Nat
+  total : Nat
   visible : Bool
+deriving Repr, DecidableEq
+
+/-- The keyword arguments of `Progress.update` / `Progress.reset` that change what a row shows. -/
+structure Edit where
+  total : Option Nat := none
+  advance : Option Nat := none
+  completed : Option Nat := none
+  desc : Option Line := none
+  visible : Option Bool := none
 deriving Repr, DecidableEq
 
 structure St where
@@ -80,9 +110,12 @@ structure St where
   stderrDepth : Nat := 0
   restoreStdout : Option Nat := none        -- `_restore_stdout`
   restoreStderr : Option Nat := none
+  bufOut : Line := []                       -- text without a final new line pending in the FileProxy that is sys.stdout
+  bufErr : Line := []                       -- … in the FileProxy that is sys.stderr
   tasks : List Task := []                   -- `Progress._tasks` in insertion order
   taskIndex : Nat := 0
   calls : Nat := 0                          -- number of calls made so far to the fault-injectable callable
+  width : Option Nat := none                -- `console._width` after a resize (`none`: still `cfg.width`)
 deriving Repr, DecidableEq
 
 inductive Op where
@@ -92,10 +125,11 @@ inductive Op where
   | printBare                                       -- console.print() / console.log() with no arguments
   | update (f : Frame) (refresh : Bool)             -- Live.update ; Status.update (always refreshes)
   | refresh
-  | addTask (desc : Line) (visible : Bool)
-  | advance (id n : Nat)
-  | setVisible (id : Nat) (v : Bool) (refresh : Bool)   -- Progress.update(id, visible=v, refresh=…)
+  | addTask (desc : Line) (visible : Bool) (total : Nat)
+  | updateTask (id : Nat) (e : Edit) (refresh : Bool)  -- Progress.update / advance / reset (reset always refreshes) / one step of track
   | removeTask (id : Nat)
+  | resize (w : Nat)                                -- the console width changes (`console._width = w`)
+  | write (err : Bool) (lines : List Line) (tail : Line)   -- sys.stdout / sys.stderr .write("\n".join(lines + [tail]))
 deriving Repr, DecidableEq
 
 /-- What one operation did: new state, characters written, exception raised. -/
@@ -118,10 +152,14 @@ def positionCursor : Option (Nat × Nat) → List TermOp
   | none => []
   | some (_, h) => .cr :: .el2 :: eraseUp (h - 1)
 
+/-- How many rows `restore_cursor` goes up: `height` in today's code; `max(height, 1)` in the repaired
+code (an empty frame still occupies the row the final line feed left). -/
+def restoreCount (fix : Bool) (h : Nat) : Nat := if fix then max h 1 else h
+
 /-- `LiveRender.restore_cursor`: `"\r" + "\x1b[1A\x1b[2K" * height`. -/
-def restoreCursor : Option (Nat × Nat) → List TermOp
+def restoreCursor (fix : Bool) : Option (Nat × Nat) → List TermOp
   | none => []
-  | some (_, h) => .cr :: eraseUp h
+  | some (_, h) => .cr :: eraseUp (restoreCount fix h)
 
 /-- User output: every line is followed by a line feed. -/
 def emitLines : List Line → List TermOp
@@ -136,67 +174,87 @@ def emitFrame : Frame → List TermOp
 
 /-! ## shapes -/
 
-def maxWidth : Frame → Nat
+/-- The terminal cells a line occupies: a character of width 2 is followed by a filler cell (`'\x00'`),
+a character of width 0 takes none. -/
+def cells (cw : Char → Nat) (l : Line) : Line :=
+  l.flatMap (fun c => if cw c = 0 then [] else c :: List.replicate (cw c - 1) '\x00')
+
+def maxWidth (cw : Char → Nat) : Frame → Nat
   | [] => 0
-  | l :: rest => max l.length (maxWidth rest)
+  | l :: rest => max (cellLen cw l) (maxWidth cw rest)
 
-/-- `Segment.get_shape`. -/
-def getShape (f : Frame) : Nat × Nat := (maxWidth f, f.length)
+/-- `Segment.get_shape`: widths are cell widths. -/
+def getShape (cw : Char → Nat) (f : Frame) : Nat × Nat := (maxWidth cw f, f.length)
 
-def padTo (w : Nat) (l : Line) : Line := l ++ List.replicate (w - l.length) ' '
+def padTo (cw : Char → Nat) (w : Nat) (l : Line) : Line := l ++ List.replicate (w - cellLen cw l) ' '
 
 /-- `Segment.set_shape(lines, width, height)` for `width ≥` every line (so nothing is cropped). -/
-def setShape (f : Frame) (w h : Nat) : Frame :=
-  f.map (padTo w) ++ List.replicate (h - f.length) (List.replicate w ' ')
+def setShape (cw : Char → Nat) (f : Frame) (w h : Nat) : Frame :=
+  f.map (padTo cw w) ++ List.replicate (h - f.length) (List.replicate w ' ')
+
+/-- `render_lines(..., pad=False)` crops a line to the console width in *cells* (`adjust_line_length` →
+`set_cell_size`: a double-width character that straddles the edge is replaced by a space). -/
+def cropLine (cw : Char → Nat) (w : Nat) (l : Line) : Line :=
+  if cellLen cw l > w then setCellSize cw l w else l
 
 /-- The line `Text("...", overflow="crop", justify="center", end="")` renders to at width `w ≥ 3`. -/
 def ellipsisLine (w : Nat) : Line :=
   List.replicate ((w - 3) / 2) ' ' ++ ['.', '.', '.'] ++ List.replicate ((w - 3) - (w - 3) / 2) ' '
 
 /-- `_LiveRender.__rich_console__` up to the shape assignment: the lines that are emitted. -/
-def liveFrame (cfg : Cfg) (ov : Overflow) (r : Frame) : Frame :=
-  let lines := r.map (List.take cfg.width)
-  if lines.length > cfg.height then
+def liveFrame (cw : Char → Nat) (w h : Nat) (ov : Overflow) (r : Frame) : Frame :=
+  let lines := r.map (cropLine cw w)
+  if lines.length > h then
     match ov with
-    | .crop => lines.take cfg.height
-    | .ellipsis => lines.take (cfg.height - 1) ++ [ellipsisLine cfg.width]
+    | .crop => lines.take h
+    | .ellipsis => lines.take (h - 1) ++ [ellipsisLine w]
     | .visible => lines
   else lines
 
 /-- `LiveRender.__rich_console__` (Progress): new shape (running maximum) and the padded lines. -/
-def progressFrame (cfg : Cfg) (shape : Option (Nat × Nat)) (r : Frame) : Frame × (Nat × Nat) :=
-  let lines := r.map (List.take cfg.width)
-  let s1 := getShape lines
+def progressFrame (cw : Char → Nat) (w : Nat) (shape : Option (Nat × Nat)) (r : Frame) : Frame × (Nat × Nat) :=
+  let lines := r.map (cropLine cw w)
+  let s1 := getShape cw lines
   let s := match shape with
     | none => s1
-    | some (w2, h2) => (max s1.1 (min cfg.width w2), max s1.2 h2)
-  (setShape lines s.1 s.2, s)
+    | some (w2, h2) => (max s1.1 (min w w2), max s1.2 h2)
+  (setShape cw lines s.1 s.2, s)
 
-/-- The frame a hooked print displays in state `st`, and the shape it records. -/
-def frameNow (cfg : Cfg) (st : St) : Frame × (Nat × Nat) :=
-  match cfg.kind with
-  | .progress => progressFrame cfg st.shape st.renderable
-  | _ => let f := liveFrame cfg st.overflow st.renderable; (f, getShape f)
+/-- `console.width` right now. -/
+def curWidth (cfg : Cfg) (st : St) : Nat := st.width.getD cfg.width
 
 /-! ## Progress tasks table and Status grid -/
 
 def natLine (n : Nat) : Line := (toString n).toList
 
-def taskRow (t : Task) : Line := t.desc ++ ' ' :: natLine t.completed
+def taskRow (t : Task) : Line := t.desc ++ ' ' :: natLine t.completed ++ '/' :: natLine t.total
 
-/-- `make_tasks_table` with the single column `"{task.description} {task.completed}"`: one row per
+/-- `Progress.update` / `reset`: total, advance, completed, description, visible — in this order. -/
+def Edit.apply (e : Edit) (t : Task) : Task :=
+  let t := match e.total with | some n => { t with total := n } | none => t
+  let t := match e.advance with | some n => { t with completed := t.completed + n } | none => t
+  let t := match e.completed with | some n => { t with completed := n } | none => t
+  let t := match e.desc with | some d => { t with desc := d } | none => t
+  match e.visible with | some v => { t with visible := v } | none => t
+
+/-- `make_tasks_table` with the single column `"{task.description} {task.completed}/{task.total}"`: one row per
 visible task, cells padded to the widest. -/
-def tasksTable (tasks : List Task) : Frame :=
+def tasksTable (cw : Char → Nat) (tasks : List Task) : Frame :=
   let rows := (tasks.filter (·.visible)).map taskRow
-  rows.map (padTo (maxWidth rows))
+  rows.map (padTo cw (maxWidth cw rows))
 
-/-- `Status.renderable`: `Table.grid(padding=1)` with the row (spinner, status); the spinner shows
-its first frame (the clock is frozen). -/
-def statusFrame (lines : Frame) : Frame :=
-  let w := maxWidth lines
+/-- What the spinner cell shows is replaced at every render (`Cfg.spin`). -/
+def respin (c : Char) : Frame → Frame
+  | (_ :: l) :: rest => (c :: l) :: rest
+  | f => f
+
+/-- `Status.renderable`: `Table.grid(padding=1)` with the row (spinner, status); the first character is
+the spinner cell (re-rendered by `respin` each time the display is drawn). -/
+def statusFrame (cw : Char → Nat) (lines : Frame) : Frame :=
+  let w := maxWidth cw lines
   match lines with
   | [] => []
-  | l :: rest => ('⠋' :: ' ' :: padTo w l) :: rest.map (fun l => ' ' :: ' ' :: padTo w l)
+  | l :: rest => ('⠋' :: ' ' :: padTo cw w l) :: rest.map (fun l => ' ' :: ' ' :: padTo cw w l)
 
 def findTask (tasks : List Task) (id : Nat) : Option Task := tasks.find? (·.id == id)
 
@@ -205,23 +263,43 @@ def replaceTask (tasks : List Task) (t : Task) : List Task :=
 
 /-! ## the state machine -/
 
-/-- `console.print(*objects)` rewritten by `process_renderables` while the hook is installed:
+/-- The renderable as it is rendered now (the spinner of a Status moves). -/
+def rendered (cfg : Cfg) (st : St) : Frame :=
+  if cfg.kind == .status then respin (cfg.spin st.calls) st.renderable else st.renderable
+
+/-- User lines as written to the terminal (in cells). -/
+def emitCells (cfg : Cfg) (user : List Line) : List TermOp := emitLines (user.map (cells cfg.cw))
+
+/-- `console.print(*objects)` on a terminal, rewritten by `process_renderables` while the hook is installed:
 `[position_cursor, *user, live_render]`.  For a Live the renderable is called (one call index). -/
 def hooked (cfg : Cfg) (fails : Nat → Bool) (st : St) (user : List Line) : Res :=
   match cfg.kind with
   | .progress =>
-    let (f, s) := progressFrame cfg st.shape st.renderable
-    { st := { st with shape := some s }, out := positionCursor st.shape ++ emitLines user ++ emitFrame f }
+    let (f, s) := progressFrame cfg.cw (curWidth cfg st) st.shape st.renderable
+    { st := { st with shape := some s }, out := positionCursor st.shape ++ emitCells cfg user ++ emitFrame (f.map (cells cfg.cw)) }
   | _ =>
-    let st1 := { st with calls := st.calls + 1 }
-    if fails st.calls then { st := st1, err := some .fault }
+    let st1 := { st with calls := st.calls + 1, renderable := rendered cfg st }
+    if fails st.calls then { st := { st with calls := st.calls + 1 }, err := some .fault }
     else
-      let f := liveFrame cfg st.overflow st.renderable
-      { st := { st1 with shape := some (getShape f) }, out := positionCursor st.shape ++ emitLines user ++ emitFrame f }
+      let f := liveFrame cfg.cw (curWidth cfg st) cfg.height st.overflow st1.renderable
+      { st := { st1 with shape := some (getShape cfg.cw f) }, out := positionCursor st.shape ++ emitCells cfg user ++ emitFrame (f.map (cells cfg.cw)) }
 
-/-- A print call: through the hook when one is installed, plain otherwise. -/
+/-- The same for a Live writing to a file (not a terminal) once it is finished and not transient:
+`[*user, live_render]` — no cursor movement, the frame simply follows. -/
+def hookedFile (cfg : Cfg) (fails : Nat → Bool) (st : St) (user : List Line) : Res :=
+  let st1 := { st with calls := st.calls + 1, renderable := rendered cfg st }
+  if fails st.calls then { st := { st with calls := st.calls + 1 }, err := some .fault }
+  else
+    let f := liveFrame cfg.cw (curWidth cfg st) cfg.height st.overflow st1.renderable
+    { st := { st1 with shape := some (getShape cfg.cw f) }, out := emitCells cfg user ++ emitFrame (f.map (cells cfg.cw)) }
+
+/-- A print call: through the hook when one is installed (`process_renderables`), plain otherwise. -/
 def doPrint (cfg : Cfg) (fails : Nat → Bool) (st : St) (user : List Line) : Res :=
-  if st.hooks > 0 then hooked cfg fails st user else { st := st, out := emitLines user }
+  if st.hooks > 0 then
+    if cfg.terminal then hooked cfg fails st user
+    else if cfg.kind != .progress && !st.started && !cfg.transient then hookedFile cfg fails st user
+    else { st := st, out := emitCells cfg user }
+  else { st := st, out := emitCells cfg user }
 
 /-- Calls of the progress column for the visible tasks, in order; `none` when one of them raises. -/
 def columnCalls (fails : Nat → Bool) : Nat → List Task → Nat × Bool
@@ -230,21 +308,80 @@ def columnCalls (fails : Nat → Bool) : Nat → List Task → Nat × Bool
     if t.visible then (if fails c then (c + 1, false) else columnCalls fails (c + 1) rest)
     else columnCalls fails c rest
 
-/-- `Live.refresh` / `Progress.refresh` on a terminal. -/
+/-- `Live.refresh` / `Progress.refresh`. -/
 def doRefresh (cfg : Cfg) (fails : Nat → Bool) (st : St) : Res :=
   match cfg.kind with
   | .progress =>
-    let (c, ok) := columnCalls fails st.calls st.tasks
-    let st1 := { st with calls := c }
-    if !ok then { st := st1, err := some .fault }
+    if cfg.disable || !cfg.ansi then { st := st }     -- `if not self.disable:` … `elif is_terminal and not is_dumb_terminal:`
     else
-      let st2 := { st1 with renderable := tasksTable st.tasks }
-      if st2.hooks > 0 then hooked cfg fails st2 [] else { st := st2 }
-  | _ => if st.hooks > 0 then hooked cfg fails st [] else { st := st }
+      let (c, ok) := columnCalls fails st.calls st.tasks
+      let st1 := { st with calls := c }
+      if !ok then { st := st1, err := some .fault }
+      else
+        let st2 := { st1 with renderable := tasksTable cfg.cw st.tasks }
+        if st2.hooks > 0 then hooked cfg fails st2 [] else { st := st2 }
+  | _ =>
+    if cfg.ansi then (if st.hooks > 0 then hooked cfg fails st [] else { st := st })
+    else if !st.started && !cfg.transient then doPrint cfg fails st []   -- files / dumb terminals see the final result
+    else { st := st }
+
+/-! ### FileProxy: the stream buffers -/
+
+/-- Is `sys.stdout` (`err = false`) / `sys.stderr` (`err = true`) a FileProxy right now? -/
+def proxied (st : St) (err : Bool) : Bool := if err then st.stderrDepth > 0 else st.stdoutDepth > 0
+
+def getBuf (st : St) (err : Bool) : Line := if err then st.bufErr else st.bufOut
+
+def setBuf (st : St) (err : Bool) (b : Line) : St := if err then { st with bufErr := b } else { st with bufOut := b }
+
+/-- `FileProxy.write`: complete lines are printed through the console (the first one prefixed by what
+was pending), the rest stays pending.  A stream that is not redirected does not reach the console. -/
+def doWrite (cfg : Cfg) (fails : Nat → Bool) (st : St) (err : Bool) (lines : List Line) (tail : Line) : Res :=
+  if !proxied st err then { st := st }
+  else match lines with
+    | [] => { st := setBuf st err (getBuf st err ++ tail) }
+    | l :: rest => doPrint cfg fails (setBuf st err tail) ((getBuf st err ++ l) :: rest)
+
+/-- `FileProxy.flush()` called on a live proxy (repaired `stop`): pending text is printed; an exception
+propagates and the text stays pending. -/
+def flushLive (cfg : Cfg) (fails : Nat → Bool) (st : St) (err : Bool) : Res :=
+  if proxied st err && !(getBuf st err).isEmpty then
+    let r := doPrint cfg fails st [getBuf st err]
+    match r.err with
+    | some _ => r
+    | none => { r with st := setBuf r.st err [] }
+  else { st := st }
+
+/-- `sys.stdout = self._restore_stdout`: the FileProxy object dies (CPython: at once), `IOBase.__del__`
+closes it, `close()` flushes: pending text is printed *now*; an exception in `__del__` is ignored. -/
+def flushDead (cfg : Cfg) (fails : Nat → Bool) (st : St) (err : Bool) : Res :=
+  if (if err then st.restoreStderr.isSome else st.restoreStdout.isSome) && !(getBuf st err).isEmpty then
+    let r := doPrint cfg fails (setBuf st err []) [getBuf st err]
+    { st := r.st, out := r.out }
+  else { st := st }
+
+/-- What `_disable_redirect_io` writes (stdout first, then stderr).  `alive`: the stream whose proxy
+outlives the call because the exception in flight was raised inside its `flush()` (the traceback
+references it) — that one is not flushed here. -/
+def dropFlush (cfg : Cfg) (fails : Nat → Bool) (st : St) (alive : Option Bool := none) : Res :=
+  let r1 := if alive == some false then { st := st } else flushDead cfg fails st false
+  let r2 := if alive == some true then { st := r1.st } else flushDead cfg fails r1.st true
+  { st := r2.st, out := r1.out ++ r2.out }
+
+/-- …it dies when the exception is disposed of, after `stop` has run its `finally:` block: what was
+pending is then printed by a console that has no hook any more. -/
+def lateFlush (cfg : Cfg) (fails : Nat → Bool) (st : St) : Option Bool → Res
+  | none => { st := st }
+  | some e =>
+    if (getBuf st e).isEmpty then { st := st }
+    else
+      let r := doPrint cfg fails (setBuf st e []) [getBuf st e]
+      { st := r.st, out := r.out }
 
 def enableRedirect (cfg : Cfg) (st : St) : St :=
-  let st := if cfg.redirectStdout then { st with restoreStdout := some st.stdoutDepth, stdoutDepth := st.stdoutDepth + 1 } else st
-  if cfg.redirectStderr then { st with restoreStderr := some st.stderrDepth, stderrDepth := st.stderrDepth + 1 } else st
+  if !cfg.terminal then st else
+  let st := if cfg.redirectStdout then { st with restoreStdout := some st.stdoutDepth, stdoutDepth := st.stdoutDepth + 1, bufOut := [] } else st
+  if cfg.redirectStderr then { st with restoreStderr := some st.stderrDepth, stderrDepth := st.stderrDepth + 1, bufErr := [] } else st
 
 def disableRedirect (st : St) : St :=
   let st := match st.restoreStdout with
@@ -262,13 +399,28 @@ and puts `vertical_overflow` back to what it was when `stop` was entered. -/
 def resetSt (cfg : Cfg) (st : St) : St :=
   if cfg.resetShape then { st with shape := none, overflow := st.overflow0 } else st
 
+/-- `console.show_cursor(True / False)`: nothing unless the console is a terminal that is not dumb. -/
+def showOp (cfg : Cfg) : List TermOp := if cfg.ansi then [.showCursor] else []
+def hideOp (cfg : Cfg) : List TermOp := if cfg.ansi then [.hideCursor] else []
+
+/-- The `finally:` block of `stop` as written to the terminal: Live restores io, pops the hook, shows the
+cursor; Progress shows the cursor first.  `o` is what dropping the proxies wrote. -/
+def finOut (cfg : Cfg) (o : List TermOp) : List TermOp :=
+  match cfg.kind with
+  | .progress => showOp cfg ++ o
+  | _ => o ++ showOp cfg
+
 /-- `stop` after its last `refresh()` returned `r`: line feed, the `finally:` block, the transient erase. -/
-def stopTail (cfg : Cfg) (r : Res) : Res :=
+def stopTail (cfg : Cfg) (fails : Nat → Bool) (r : Res) (alive : Option Bool := none) : Res :=
+  let d := dropFlush cfg fails r.st alive
   match r.err with
-  | some e => { st := cleanup r.st, out := r.out ++ [.showCursor], err := some e }
+  | some e =>
+    let l := lateFlush cfg fails (cleanup d.st) alive
+    { st := l.st, out := r.out ++ finOut cfg d.out ++ l.out, err := some e }
   | none =>
-    { st := resetSt cfg (cleanup r.st),
-      out := r.out ++ [.lf, .showCursor] ++ (if cfg.transient then restoreCursor (cleanup r.st).shape else []) }
+    { st := resetSt cfg (cleanup d.st),
+      out := r.out ++ (if cfg.terminal then [.lf] else []) ++ finOut cfg d.out ++
+        (if cfg.transient && cfg.ansi then restoreCursor cfg.blankFix (cleanup d.st).shape else []) }
 
 /-- The state `stop` hands to its last refresh: `_started = False`, and for a Live
 `vertical_overflow = "visible"`. -/
@@ -280,7 +432,19 @@ def stopSt (cfg : Cfg) (st : St) : St :=
 /-- `Live.stop` / `Progress.stop`. -/
 def doStop (cfg : Cfg) (fails : Nat → Bool) (st : St) : Res :=
   if !st.started then { st := st }
-  else stopTail cfg (doRefresh cfg fails (stopSt cfg st))
+  else if cfg.flushFix then
+    -- repaired: what `print(..., end="")` left pending is printed above the display first
+    let r1 := flushLive cfg fails { st with started := false } false
+    match r1.err with
+    | some _ => stopTail cfg fails r1 (some false)
+    | none =>
+      let r2 := flushLive cfg fails r1.st true
+      match r2.err with
+      | some _ => stopTail cfg fails { r2 with out := r1.out ++ r2.out } (some true)
+      | none =>
+        let r := doRefresh cfg fails (stopSt cfg r2.st)
+        stopTail cfg fails { r with out := r1.out ++ r2.out ++ r.out }
+  else stopTail cfg fails (doRefresh cfg fails (stopSt cfg st))
 
 /-- `Live.start` / `Progress.start`. -/
 def doStart (cfg : Cfg) (fails : Nat → Bool) (st : St) : Res :=
@@ -291,17 +455,17 @@ def doStart (cfg : Cfg) (fails : Nat → Bool) (st : St) : Res :=
     | .progress =>
       let r := doRefresh cfg fails st1
       match r.err with
-      | none => { st := r.st, out := .hideCursor :: r.out }
+      | none => { st := r.st, out := hideOp cfg ++ r.out }
       | some e =>
         if cfg.startGuard then
           let r2 := doStop cfg fails r.st
-          { st := r2.st, out := .hideCursor :: r.out ++ r2.out, err := some (r2.err.getD e) }
-        else { st := r.st, out := .hideCursor :: r.out, err := some e }
-    | _ => { st := st1, out := [.hideCursor] }
+          { st := r2.st, out := hideOp cfg ++ r.out ++ r2.out, err := some (r2.err.getD e) }
+        else { st := r.st, out := hideOp cfg ++ r.out, err := some e }
+    | _ => { st := st1, out := hideOp cfg }
 
 /-- `add_task` up to the refresh: the new task is stored under the current index. -/
-def addTaskSt (st : St) (desc : Line) (visible : Bool) : St :=
-  { st with tasks := replaceTask st.tasks { id := st.taskIndex, desc := desc, completed := 0, visible := visible } }
+def addTaskSt (st : St) (desc : Line) (visible : Bool) (total : Nat) : St :=
+  { st with tasks := replaceTask st.tasks { id := st.taskIndex, desc := desc, completed := 0, total := total, visible := visible } }
 
 /-- `finally: self._task_index = TaskID(int(self._task_index) + 1)`. -/
 def bumpIndex (st : St) : St := { st with taskIndex := st.taskIndex + 1 }
@@ -317,33 +481,31 @@ def step (cfg : Cfg) (fails : Nat → Bool) (st : St) : Op → Res
     | .live =>
       let st1 := { st with renderable := f }
       if refresh then doRefresh cfg fails st1 else { st := st1 }
-    | .status => doRefresh cfg fails { st with renderable := statusFrame f }
+    | .status => doRefresh cfg fails { st with renderable := statusFrame cfg.cw f }
     | .progress => { st := st }   -- not an operation of Progress (the driver answers `unmodelled`)
   | .refresh => doRefresh cfg fails st
-  | .addTask desc visible =>
-    let r := doRefresh cfg fails (addTaskSt st desc visible)
+  | .addTask desc visible total =>
+    let r := doRefresh cfg fails (addTaskSt st desc visible total)
     match r.err with
     | some _ => r                                   -- raised before `_task_index` was advanced
     | none => { r with st := bumpIndex r.st }
-  | .advance id n =>
-    match findTask st.tasks id with
-    | none => { st := st, err := some .keyError }
-    | some t => { st := { st with tasks := replaceTask st.tasks { t with completed := t.completed + n } } }
-  | .setVisible id v refresh =>
+  | .updateTask id e refresh =>
     match findTask st.tasks id with
     | none => { st := st, err := some .keyError }
     | some t =>
-      let st1 := { st with tasks := replaceTask st.tasks { t with visible := v } }
+      let st1 := { st with tasks := replaceTask st.tasks (e.apply t) }
       if refresh then doRefresh cfg fails st1 else { st := st1 }
   | .removeTask id =>
     match findTask st.tasks id with
     | none => { st := st, err := some .keyError }
     | some _ => { st := { st with tasks := st.tasks.filter (fun u => !(u.id == id)) } }
+  | .write err lines tail => doWrite cfg fails st err lines tail
+  | .resize w => { st := { st with width := some w } }
 
 /-- Is `op` an operation of this kind of display? (Others are never sent by the harness.) -/
 def Op.applies (k : Kind) : Op → Bool
   | .update _ _ => k != .progress
-  | .addTask _ _ | .advance _ _ | .setVisible _ _ _ | .removeTask _ => k == .progress
+  | .addTask _ _ _ | .updateTask _ _ _ | .removeTask _ => k == .progress
   | _ => true
 
 def initSt (ov : Overflow) (r : Frame) : St := { overflow := ov, overflow0 := ov, renderable := r }
@@ -394,20 +556,26 @@ def shown (cfg : Cfg) (st : St) : Frame :=
   | .progress =>
     match st.shape with
     | none => []
-    | some (w, h) => setShape (st.renderable.map (List.take cfg.width)) w h
-  | _ => liveFrame cfg st.overflow st.renderable
+    | some (w, h) => setShape cfg.cw (st.renderable.map (cropLine cfg.cw (curWidth cfg st))) w h
+  | _ => liveFrame cfg.cw (curWidth cfg st) cfg.height st.overflow st.renderable
 
 /-- Operations that call `refresh()` / print through the console. -/
 def Op.displays (k : Kind) : Op → Bool
-  | .print _ | .printBare | .refresh | .addTask _ _ => true
+  | .print _ | .printBare | .refresh | .addTask _ _ _ => true
   | .update _ r => r || k == .status
-  | .setVisible _ _ r => r
+  | .updateTask _ _ r => r
+  | .write _ lines _ => !lines.isEmpty
   | _ => false
 
 /-- Does `op`, executed in state `st`, redraw the live display?  (A refreshing operation while the hook
 is installed; or `Progress.start`, which refreshes right after installing it.) -/
+def reaches (st : St) : Op → Bool
+  | .write err _ _ => proxied st err       -- a stream that is not redirected does not reach the console
+  | _ => true
+
 def redraws (cfg : Cfg) (st : St) (op : Op) : Bool :=
-  (op.displays cfg.kind && st.hooks > 0) || (op == .start && cfg.kind == .progress && !st.started)
+  (op.displays cfg.kind && st.hooks > 0 && reaches st op)
+    || (op == .start && cfg.kind == .progress && !st.started)
 
 structure View where
   printed : List Line := []
@@ -419,6 +587,7 @@ def viewStep (cfg : Cfg) (st : St) (v : View) (op : Op) : View :=
   { printed := match op with
       | .print ls => v.printed ++ ls
       | .printBare => v.printed ++ [[]]
+      | .write err (l :: rest) _ => if proxied st err then v.printed ++ (getBuf st err ++ l) :: rest else v.printed
       | _ => v.printed
     frame := if redraws cfg st op then shown cfg (step cfg noFault st op).st else v.frame }
 
@@ -440,14 +609,15 @@ def specRun (cfg : Cfg) : St → View → List Op → St × View
 
 /-- Well-formed histories for the screen theorems (explicit and decidable):
 every operation belongs to the display kind and raises nothing; `stop` occurs only as the last
-operation; every frame put on display fits the screen (automatic for `crop` / `ellipsis`); and a
-transient display leaves one row for the final line feed. -/
+operation; every frame put on display fits the screen (automatic for `crop` / `ellipsis`); a transient
+display leaves one row for the final line feed; no text is pending in a FileProxy when `stop` is called
+(every `print(..., end="")` was completed by a new line). -/
 def wfOps (cfg : Cfg) : St → List Op → Bool
   | _, [] => true
   | st, op :: rest =>
     if op = .stop then
-      rest.isEmpty && (doStop cfg noFault st).err.isNone &&
-        (!st.started || !cfg.transient || (stopFrame cfg st).length + 1 ≤ cfg.height)
+      rest.isEmpty && (doStop cfg noFault st).err.isNone && st.bufOut.isEmpty && st.bufErr.isEmpty &&
+        (!st.started || !cfg.transient || restoreCount cfg.blankFix (stopFrame cfg st).length + 1 ≤ cfg.height)
     else
       let r := step cfg noFault st op
       op.applies cfg.kind && r.err.isNone
@@ -455,7 +625,7 @@ def wfOps (cfg : Cfg) : St → List Op → Bool
         && wfOps cfg r.st rest
 
 def wf (cfg : Cfg) (ov : Overflow) (r0 : Frame) (h : List Op) : Bool :=
-  1 ≤ cfg.height && wfOps cfg (initSt ov r0) h
+  cfg.plain && 1 ≤ cfg.height && wfOps cfg (initSt ov r0) h
 
 def printed (cfg : Cfg) (ov : Overflow) (r0 : Frame) (h : List Op) : List Line :=
   (specRun cfg (initSt ov r0) {} h).2.printed
@@ -475,9 +645,10 @@ def region : Frame → Frame
   | l :: rest => l :: rest
 
 /-- What a `stop` leaves as finished output: the whole last frame (at least the row of the line feed)
-when not transient; nothing when transient — except the blank row an *empty* final frame still costs. -/
+when not transient; nothing when transient — except, in today's code, the blank row an *empty* final
+frame still costs (`blankFix = false`). -/
 def leftBy (cfg : Cfg) (f : Frame) : List Line :=
-  if cfg.transient then (if f.isEmpty then [[]] else []) else region f
+  if cfg.transient then (if f.isEmpty && !cfg.blankFix then [[]] else []) else region f
 
 /-- `stop` in the middle of a history: what the display leaves joins the finished output, nothing is on
 display any more.  (`View.printed` is then: printed lines and frames left by stopped sessions, in order.) -/
@@ -497,14 +668,15 @@ def wfOpsM (cfg : Cfg) : St → List Op → Bool
   | st, op :: rest =>
     let r := step cfg noFault st op
     (if op = .stop then
-      r.err.isNone && (!st.started || !cfg.transient || (stopFrame cfg st).length + 1 ≤ cfg.height)
+      r.err.isNone && st.bufOut.isEmpty && st.bufErr.isEmpty
+        && (!st.started || !cfg.transient || restoreCount cfg.blankFix (stopFrame cfg st).length + 1 ≤ cfg.height)
     else
       op.applies cfg.kind && r.err.isNone
         && (!redraws cfg st op || (shown cfg r.st).length ≤ cfg.height))
     && wfOpsM cfg r.st rest
 
 def wfM (cfg : Cfg) (ov : Overflow) (r0 : Frame) (h : List Op) : Bool :=
-  1 ≤ cfg.height && wfOpsM cfg (initSt ov r0) h
+  cfg.plain && 1 ≤ cfg.height && wfOpsM cfg (initSt ov r0) h
 
 /-- Finished output of a multi-session history: printed lines and the frames left by stopped sessions. -/
 def finished (cfg : Cfg) (ov : Overflow) (r0 : Frame) (h : List Op) : List Line :=
